@@ -379,6 +379,16 @@ func runC13(c *ctx) {
 	for _, s := range []string{"", "{", "{}", "null", "[]", "{\"TopFlat\":1e999}", "{\"TopFlat\":\"x\"}", "{\"Nope\":1}", "{\"TopFlat\":99999999999999999999}", "{\"TopFlat\":1.5}"} {
 		emitC13(c, 'J', s)
 	}
+	// every name the Feature stringer knows, the sentinel and the out-of-range spellings included (Feature(-1) .. Feature(MaxFeature+3)),
+	// alone and in pairs, with integer, null, negative and huge values: a key is either a real weight slot or an error
+	for i := -1; i <= int(ai.MaxFeature)+3; i++ {
+		name := ai.Feature(i).String()
+		for _, v := range []string{"7", "null", "-1", "9223372036854775807", "0"} {
+			emitC13(c, 'J', fmt.Sprintf("{%q:%s}", name, v))
+		}
+		emitC13(c, 'J', fmt.Sprintf("{\"TopFlat\":1,%q:2}", name))
+		emitC13(c, 'J', fmt.Sprintf("{%q:2,\"TopFlat\":1}", strings.ToLower(name)))
+	}
 	// 6. the TEI command stream
 	teiScripts := []string{"tei\nisready\nteinewgame 5\nposition startpos moves a1 e5\ngo movetime 10\nquit\n",
 		"position startpos\n", "teinewgame 3\nposition startpos moves a1 c3 c2 a2 c1\ngo\n", "teinewgame 9\n", "teinewgame x\n", "go\n", "teinewgame 4\ngo\n",
